@@ -191,7 +191,9 @@ func (w *c09World) genPeers(st *c09Stream, label string) []*pb.Message_Peer {
 		return p
 	}
 	bad := [][]byte{{0xff, 0xff, 0x01}, {}, {0x04, 0x01}}
-	switch s.Draw(label, 11) {
+	switch k := s.Draw(label, 14); k {
+	case 11, 12, 13: // the ID field (or one address) as an arbitrary byte string (c09_ids.go)
+		return w.genOddPeers(st, k-11, rec)
 	case 0:
 		return nil
 	case 1:
@@ -339,7 +341,7 @@ func c09Describe(m *pb.Message) string {
 	if m.Record != nil {
 		rec = fmt.Sprintf("%d/%d", len(m.Record.Key), len(m.Record.Value))
 	}
-	return fmt.Sprintf("msg type=%d klen=%d rec=%s cp=%d pp=%d", int32(m.Type), len(m.Key), rec, len(m.CloserPeers), len(m.ProviderPeers))
+	return fmt.Sprintf("msg type=%d klen=%d rec=%s cp=%d pp=%d idmax=%d", int32(m.Type), len(m.Key), rec, len(m.CloserPeers), len(m.ProviderPeers), c09LongestID(m))
 }
 
 func c09Marshal(m *pb.Message) []byte {
